@@ -20,6 +20,7 @@ EXTRA = {  # further checks worth running for a seed (beyond its own property an
     "C02d": ["C05"], "C04d": ["C01"], "C05d": ["C08", "C12"], "C06d": ["C08"], "C10d": ["C09"], "C13d": ["C14"], "C11e": ["C07"],
     "C01d": ["C08", "C02"], "C07d": ["C05"], "C12f": ["C16"], "C14e": ["C13"], "C09e": ["C10"], "C08e": ["C05", "C12"],
     "C16f": ["C13"], "C11f": ["C07"], "C13e": ["C14"], "C03d": ["C01", "C02"], "C12g": ["C08"], "C04e": ["C12", "C08"],
+    "C11g": ["C12"], "C12h": ["C08"], "C10e": ["C09"], "C09f": ["C10"], "C08f": ["C12"],
     "C08a": ["C14", "C12"], "C11b": ["C09"], "C06c": ["C08", "C02"], "C02c": ["C03"], "C04c": ["C01"], "C05c": ["C02"], "C13c": ["C14"], "C10c": ["C09"], "C09c": ["C10"], "C05a": ["C07"], "C07a": ["C05"], "C14a": ["C13"], "C13a": ["C14"],
 }
 
@@ -41,7 +42,7 @@ def one(name):
     wt, out = f"/var/tmp/seedwt-{name}", f"/var/tmp/seedout-{name}"
     meta = {"seed": name, "property": prop, "summary": agent.get("summary"), "needs": agent.get("needs"),
             "produced_by": "fresh sub-agent given only the property text and a scratch worktree",
-            "agent_ran": agent.get("ran"), "confirmed_by_me": {}, "checks": {}}
+            "agent_ran": agent.get("ran") or agent.get("agent_ran"), "confirmed_by_me": {}, "checks": {}}
     sh(f"git -C /repo worktree remove --force {wt}; rm -rf {wt} {out}")
     head = sh("git -C /repo rev-parse HEAD")[1].strip()
     meta["confirmed_by_me"]["repo_commit"] = head
